@@ -1,8 +1,18 @@
 """Registry entry, manifest texts for C05."""
 
 ENTRY = {'parts': [{'scenario': 'scenarios.s_pool', 'chunk': 6}],
-         'quick': {'runs': 2500, 'budget': 60}, 'thorough': {'runs': 150000, 'budget': 1200}}
+         'quick': {'runs': 2500, 'budget': 55}, 'thorough': {'runs': 150000, 'budget': 1200}}
 
-TEXT = {'level': 'TODO', 'ref': 'DESIGN.md 5 (C05), 4 (S-POOL)', 'note': 'TODO'}
-
-ENABLED = False
+TEXT = {'level': 'Seeded search over limits x durations x scan/result races: pool-level and per-job hard limits, '
+          'jobs whose duration straddles the limit by -2..+5 s, pool sizes 1-4 (incl. 1), maps sharing the '
+          'pool, workers optionally process-group leaders (killpg branch). Oracle: a job running past '
+          'accept+limit fails TimeLimitExceeded(limit) no later than one scan period (+0.15 s per job) after '
+          'expiry and never before it, its pid is dead shortly after (TERM, then KILL), later jobs are '
+          'served by a replacement, jobs without a limit / map jobs are never timed out, the per-job limit '
+          'wins, the scanner thread never takes the host down.',
+ 'note': 'Trusted: the simulated kernel (simos) models Linux semaphores, pipes, poll, process table, signals '
+         'and wait statuses faithfully (stub conformance: selftest/conformance.py); BaseProcess._bootstrap '
+         'is replaced by a replica of its exit-code mapping (checked by C19); start method is spawn-like '
+         '(pickled copy). Workers die uncatchably only inside task code or between jobs; pipes do not lose '
+         'bytes. Sampling, not proof.',
+ 'ref': 'DESIGN.md 5 (C05), 3, 4 (S-POOL)'}
